@@ -725,6 +725,11 @@ def check_C11(v, tier, seed):
     # the C API keeps failed calls' error values in its table until pathrs_errorinfo() consumes them: the descriptor
     # table is compared while the error is still pending
     runs.append(Run("C11-capi", ["capi-args"] + (["--thorough"] if tier == "thorough" else [])))
+    # the procfs API too (masked global handle: the ENOENT retry creates and must drop a temporary unmasked handle),
+    # reopen, and reopen under single faults
+    runs.append(Run("C11-proc-live", ["proc-live", "--seed", str(seed + 59), "--n", str(sizes(tier, 120, 800))]))
+    runs.append(Run("C11-reopen", ["reopen", "--seed", str(seed + 67)]))
+    runs.append(Run("C11-reopen-fault", ["reopen-fault", "--seed", str(seed)]))
     concrete = run_oracle_cases(v, runs, oracle_fd_table, "descriptor table not restored")
     # the long-lived descriptors of procfs handles: every constructor, close-on-exec
     ctor = constructor_step(v, "C11", runs, concrete)
